@@ -172,7 +172,17 @@ have /Qeq_bool_iff -> := eq; rewrite andbT.
 by case E0: (Qeq_bool v _) => //; case: nz; exact/Qeq_bool_iff.
 Qed.
 
-(* summary for Properties/C12Mx.v *)
+(* summaries for Properties/C12Mx.v *)
+Theorem centred_mx_facts k d (nb : seq (seq Z)) : size nb = k.+1 -> pointsP d nb ->
+  mx_of_zmat k.+1 d (GeoEllipsoid.centred nb d) = (k.+1)%:R *: centre (mx_of_zmat k.+1 d nb) /\
+  mx_of_zmat d d (GeoEllipsoid.gram (GeoEllipsoid.centred nb d) d) = gramT (mx_of_zmat k.+1 d (GeoEllipsoid.centred nb d)) /\
+  mx_of_zmat k.+1 k.+1 (GeoRank.gram_rows (GeoEllipsoid.centred nb d)) = gramS (mx_of_zmat k.+1 d (GeoEllipsoid.centred nb d)).
+Proof.
+move=> sz H; split; first exact: centred_mx.
+have wf := centred_wf H; rewrite sz in wf.
+by split; [apply: gram_mx; case/andP: wf => /eqP|exact: gram_rows_mx].
+Qed.
+
 Theorem centred_gram_determinants (nb : seq (seq Z)) d : nb <> [::] -> pointsP d nb ->
   GeoRank.zdet (List.length nb) (GeoRank.gram_rows (GeoEllipsoid.centred nb d)) = Z0 /\
   ((List.length nb <= d)%coq_nat ->
